@@ -46,7 +46,7 @@ class World(object):
                 # '0', ',' before '-', 'G' after 'F', '@' before 'A' is excluded: it makes a JID)
                 base = r.choice(["0123456789-.", "0123456789ABCDEF"])
                 s = [r.choice(base) for _ in range(length)]
-                s[r.randrange(length)] = r.choice(":/,G`;")
+                s[r.randrange(length)] = r.choice(u":/,G`;\xb2\xb3\xb9\xbd")      # incl. Latin-1 characters that str.isdigit() / isalnum() accept
                 s = "".join(s)
             elif cls == "raw" and near == "mixed" and length >= 2:
                 s = [r.choice("0123456789ABCDEF-.") for _ in range(length)]
